@@ -5722,6 +5722,10 @@ class State:
 
             self._muck_hole_cards(player_index)
 
+            # A player who mucks is out of the hand and no longer has a
+            # say in the number of runouts.
+            self.runout_count_selector_statuses[player_index] = False
+
         operation = HoleCardsShowingOrMucking(
             player_index,
             cards,
